@@ -155,6 +155,9 @@ static std::unique_ptr<Setup> make_setup(Rng& rng, int max_steps) {
     config.establishment_stochasticity = rng.coin(60);
     config.establishment_probability = rng.in(0, 64) / 64.0;
     config.reproductive_rate = rng.in(0, 8) / 4.0;
+    // libstdc++'s poisson_distribution switches to a rejection algorithm with internal state (a cached
+    // normal deviate) at mean >= 12: high rates make hidden distribution state visible to the run-twice check
+    if (config.generate_stochasticity && rng.coin(20)) { static const double hi[] = {12.0, 13.5, 20.0, 40.0}; config.reproductive_rate = hi[rng.in(0, 3)]; stats.add("reproductive_rate_ge_12"); }
     if (S.nhosts > 1 && rng.coin(50)) config.set_arrival_behavior("land");
     // kernels
     S.injected = rng.coin(20);
